@@ -3,6 +3,7 @@ import ParryModel.C03.Model
 import ParryModel.C03.Oracle
 import ParryModel.C03.Sat
 import ParryModel.C03.SatDriver
+import ParryModel.C03.WrapDriver
 /-! C03 protocol handlers: model evaluation at `Float` and exact-`Rat` oracles on implementation output. -/
 namespace C03
 open Model Proto
@@ -986,7 +987,9 @@ def handlerCore (fn : String) : Option Handler :=
       some { model := fun _ => some "oracle-only", oracle := fun a o => oracleO2 fn a o }
   | "o2_cast" => some { model := fun _ => some "oracle-only", oracle := fun a o => oracleCast2 a o }
   /- ---------------- closed-form cuboid/cuboid separating-axis test (SatDriver.lean) ---------------- -/
-  | _ => satHandler fn
+  | _ => match satHandler fn with
+    | some h => some h
+    | none => wrapHandler fn
 
 /-- every C03 oracle starts with the totality clause (`fail non-finite-output …`, see `guardFinite`) -/
 def handler (fn : String) : Option Handler := (handlerCore fn).map (guardFinite fn)
